@@ -20,6 +20,7 @@ type FuncReport struct {
 	Abstracted  []string
 	Inlined     []string
 	UsedContr   []string
+	AssumedTerm []string
 	Trusted     bool
 	ReachPC     *Term // path condition of normal return
 	NAssumeEnd  int
@@ -112,6 +113,7 @@ func (eng *Engine) verifyFunc(key string) *FuncReport {
 	rep.Abstracted = sortedKeys(ex.abstracted)
 	rep.Inlined = sortedKeys(ex.inlined)
 	rep.UsedContr = sortedKeys(ex.usedContr)
+	rep.AssumedTerm = sortedKeys(ex.assumedTerm)
 	return rep
 }
 
@@ -458,7 +460,7 @@ func (eng *Engine) relevantAxioms(terms []*Term, exclude string, onlyAxiomsAnd m
 }
 
 func builtinSym(s string) bool {
-	return s == "dyntype" || s == "str_len" || s == "str_at"
+	return s == "dyntype" || s == "str_len" || s == "str_at" || s == "idx"
 }
 
 func (eng *Engine) lemmaObligation(name string) (*Obligation, error) {
